@@ -2,6 +2,7 @@ package main
 
 import (
 	"bytes"
+	"crypto/sha256"
 	"encoding/binary"
 	"encoding/pem"
 	"fmt"
@@ -172,11 +173,153 @@ var c14Worker *Worker
 // runtime's own bookkeeping (error values, reflection in encoding/binary)
 func allocBudget(n int) uint64 { return 64*uint64(n) + (2 << 20) }
 
+// c14Synth builds a large, regular input from its description (the case holds the description, not
+// the megabytes): "entries" elements, for signature lists "per" entries in each list (0 = one list).
+func c14Synth(cs Case) []byte {
+	n, per, size := int(cs.I("entries")), int(cs.I("per")), int(cs.I("size"))
+	var out bytes.Buffer
+	word := func(i, j int) []byte {
+		var k [8]byte
+		binary.LittleEndian.PutUint32(k[:], uint32(i))
+		binary.LittleEndian.PutUint32(k[4:], uint32(j))
+		h := sha256.Sum256(k[:])
+		return h[:]
+	}
+	switch cs.S("gen") {
+	case "sha256-lists", "x509-lists":
+		typ := tSHA256
+		if cs.S("gen") == "x509-lists" {
+			typ = tX509
+		} else {
+			size = 32
+		}
+		if per <= 0 {
+			per = n
+		}
+		owner := unhx("bd9afa775903324dbd6028f4e78f784b") // one owner for all entries, as in a revocation list
+		for i := 0; i < n; i += per {
+			var sigs [][2][]byte
+			for j := i; j < i+per && j < n; j++ {
+				d := []byte{}
+				for k := 0; len(d) < size; k++ {
+					d = append(d, word(j, k)...)
+				}
+				sigs = append(sigs, [2][]byte{owner, d[:size]})
+			}
+			out.Write(encodeList(typ, nil, 16+size, sigs))
+		}
+	case "bootorder":
+		for i := 0; i < n; i++ {
+			out.Write([]byte{byte(i), byte(i >> 8)})
+		}
+	case "guids":
+		for i := 0; i < n; i++ {
+			out.Write(word(i, 0)[:16])
+		}
+	case "nodes": // PCI, USB and hard-drive nodes in turn, then the end node
+		for i := 0; i < n; i++ {
+			switch i % 3 {
+			case 0:
+				out.Write([]byte{1, 1, 6, 0, byte(i), byte(i >> 8)})
+			case 1:
+				out.Write([]byte{3, 5, 6, 0, byte(i), byte(i >> 8)})
+			default:
+				hd := append([]byte{4, 1, 42, 0}, append(word(i, 0), word(i, 1)[:6]...)...)
+				hd[4+36], hd[4+37] = 2, 2
+				out.Write(hd)
+			}
+		}
+		out.Write([]byte{0x7f, 0xff, 4, 0})
+	case "utf16":
+		for i := 0; i < n; i++ {
+			out.Write([]byte{byte(0x41 + i%26), 0})
+		}
+		out.Write([]byte{0, 0})
+	}
+	return out.Bytes()
+}
+
+// timeBudgetUs is the absolute time allowed for an n-byte input: 1 µs per byte + 0.5 s (as in C13).
+func timeBudgetUs(n int) int64 { return 500000 + int64(n) }
+
+// c14ScaleEval decodes one large regular input and checks that time and memory stay proportional to
+// its size: against the absolute budgets, and - for a signature database - against the time the same
+// entries take when they are split over many short lists (same entry count, practically the same
+// byte count; a decoder whose cost depends on anything but the input size shows as a ratio). Each
+// measurement is the best of up to three runs, so a busy machine does not raise a false alarm.
+func c14ScaleEval(c *Ctx, cs Case) {
+	ep := cs.S("ep")
+	b := c14Synth(cs)
+	run := func(in []byte, goodUs int64) (wRes, int64) {
+		var best wRes
+		bestUs := int64(-1)
+		for try := 0; try < 3; try++ {
+			res := c14Worker.Do(ep, map[string]string{"b": hx(in)}, 20*time.Second)
+			us := res.Us
+			if us == 0 {
+				us = res.Ms * 1000
+			}
+			if res.Class != "ok" && res.Class != "err" {
+				return res, us
+			}
+			if bestUs < 0 || us < bestUs {
+				best, bestUs = res, us
+			}
+			if bestUs <= goodUs {
+				break
+			}
+		}
+		return best, bestUs
+	}
+	res, us := run(b, 20000)
+	c.Count(cs.Key(), true, "scale/"+ep+"/"+cs.S("gen")+"/"+res.Class)
+	c.Sample(cs)
+	fail := func(what string) {
+		c.Fail(Failure{Kind: "property", What: ep + ": " + what, Case: cs, Go: fmt.Sprintf("%s alloc=%d us=%d %s%s", res.Class, res.Alloc, us, res.Panic, res.Out)})
+	}
+	switch res.Class {
+	case "ok", "err":
+	case "timeout":
+		fail(fmt.Sprintf("decoding a %d-byte input did not finish in 20 s", len(b)))
+		return
+	default:
+		fail(fmt.Sprintf("decoding a %d-byte input ended as %s", len(b), res.Class))
+		return
+	}
+	if want := cs.S("want"); want != "" && res.Class != want {
+		// the generator's own inputs are well-formed: an error here means the timing compares nothing
+		fail(fmt.Sprintf("a well-formed %d-byte input was not decoded (%s)", len(b), res.Class))
+	}
+	if res.Alloc > allocBudget(len(b)) {
+		fail(fmt.Sprintf("allocated %d bytes for a %d-byte input", res.Alloc, len(b)))
+	}
+	if us > timeBudgetUs(len(b)) {
+		fail(fmt.Sprintf("took %d µs for a %d-byte input (limit %d µs: time must be proportional to the input size)", us, len(b), timeBudgetUs(len(b))))
+	}
+	if split := cs.I("split"); split > 0 {
+		twin := Case{}
+		for k, v := range cs {
+			twin[k] = v
+		}
+		twin["per"] = split
+		tb := c14Synth(twin)
+		_, tus := run(tb, us/4)
+		c.Note("scale/"+ep+"/"+cs.S("gen")+fmt.Sprintf("/%d", cs.I("entries")), fmt.Sprintf("one list: %d bytes %d µs; lists of %d: %d bytes %d µs", len(b), us, split, len(tb), tus))
+		if tus >= 0 && us > 8*tus+100000 {
+			fail(fmt.Sprintf("took %d µs for %d entries in one list (%d bytes) but %d µs for the same entries in lists of %d (%d bytes): decoding time depends on more than the input size", us, cs.I("entries"), len(b), tus, split, len(tb)))
+		}
+	}
+}
+
 func c14Eval(c *Ctx, cs Case) {
 	ep := cs.S("ep")
 	b := unhx(cs.S("b"))
 	if c14Worker == nil {
 		c14Worker = c.NewWorker(3<<20, "GOMEMLIMIT=2GiB")
+	}
+	if cs.S("gen") != "" {
+		c14ScaleEval(c, cs)
+		return
 	}
 	res := c14Worker.Do(ep, map[string]string{"b": hx(b)}, 10*time.Second)
 	c.Count(cs.Key(), len(b) > 0, "decode/"+ep+"/"+cs.S("class")+"/"+res.Class)
@@ -218,6 +361,26 @@ func c14Eval(c *Ctx, cs Case) {
 			c.Fail(Failure{Kind: "tie", What: ep + ": outcome class differs from the Lean model", Case: cs, Model: m, Go: res.Class})
 		}
 	}
+}
+
+// loadOptionNodeOffsets walks a well-formed load option (attributes, path-list length, NUL-terminated
+// UTF-16 description, device-path nodes chained by their Length fields) and returns where each node starts.
+func loadOptionNodeOffsets(lo []byte) []int {
+	p := 6
+	for p+1 < len(lo) && !(lo[p] == 0 && lo[p+1] == 0) {
+		p += 2
+	}
+	p += 2
+	var offs []int
+	for p+4 <= len(lo) {
+		offs = append(offs, p)
+		l := int(binary.LittleEndian.Uint16(lo[p+2:]))
+		if l < 4 || lo[p] == 0x7f {
+			break
+		}
+		p += l
+	}
+	return offs
 }
 
 func bootOrderDecode(b []byte) string {
@@ -272,6 +435,24 @@ func c14Gen(c *Ctx) {
 			}
 		}
 	}
+	// --- size scaling: one LONG regular input per repetitive format (a revocation list of tens of
+	// thousands of hashes in ONE list, the same entries in lists of 64, certificates-sized entries, a
+	// long boot order / GUID list / device path / string); time and memory must follow the byte count
+	scale := func(ep, gen, want string, entries, size, split int) {
+		if c.NFailures() < 40 {
+			c14Eval(c, Case{"op": "scale", "ep": ep, "gen": gen, "want": want, "entries": entries, "size": size, "per": 0, "split": split})
+		}
+	}
+	for _, n := range []int{c.P(4096, 16384), c.P(20000, 80000)} {
+		scale("sigdb.read", "sha256-lists", "ok", n, 32, 64)
+		scale("siglist.read", "sha256-lists", "ok", n, 32, 0) // reads one list only: no split twin
+		scale("sigdb.read", "x509-lists", "ok", n/4, 600, 16)
+	}
+	scale("bootorder", "bootorder", "", c.P(30000, 32767), 0, 0)
+	scale("supportedsigs", "guids", "", c.P(20000, 100000), 0, 0)
+	scale("devicepath", "nodes", "ok", c.P(20000, 100000), 0, 0)
+	scale("utf16", "utf16", "ok", c.P(200000, 2000000), 0, 0)
+	scale("efistring", "utf16", "ok", c.P(200000, 2000000), 0, 0)
 	for _, sz := range []uint32{0, 1, 15, 16, 17, 48, 1 << 20, 1 << 31, 0xffffffff} {
 		for _, n := range []int{0, 8, 16, 17, 48, 100} {
 			b := make([]byte, 4)
@@ -351,12 +532,37 @@ func c14Gen(c *Ctx) {
 			emit("loadoption", "byteset", "devicepath", m)
 		}
 	}
+	// every node's Length field set to each value below the 4-byte node header, to one less / one more
+	// than it was and to the maximum: a decoder that sizes anything by the declared node length must
+	// cope with a length that does not even cover the header
+	for _, lo := range los {
+		for _, off := range loadOptionNodeOffsets(lo) {
+			orig := int(binary.LittleEndian.Uint16(lo[off+2:]))
+			for _, l := range []int{0, 1, 2, 3, orig - 1, orig + 1, 0xffff} {
+				if l < 0 || l > 0xffff {
+					continue
+				}
+				m := append([]byte{}, lo...)
+				binary.LittleEndian.PutUint16(m[off+2:], uint16(l))
+				emit("loadoption", "node-length", "devicepath", m)
+			}
+		}
+	}
 	// every node type / subtype with too little data, and every partition-format byte
 	for ty := 0; ty < 6; ty++ {
 		for sub := 0; sub < 12; sub++ {
 			for _, n := range []int{0, 1, 3, 7, 15, 37, 38} {
 				emit("devicepath", fmt.Sprintf("node-%d-%d", ty, sub), "devicepath", append([]byte{byte(ty), byte(sub), 4, 0}, randBytes(c, n)...))
 				emit("devicepath", fmt.Sprintf("node-%d-%d+end", ty, sub), "devicepath", append(append([]byte{byte(ty), byte(sub), 4, 0}, randBytes(c, n)...), 0x7f, 0xff, 4, 0))
+			}
+			// the same node kinds with a declared Length of 0..3 (smaller than the node header itself),
+			// of exactly header + data, and of 0xffff, over no data / a NUL-terminated body / a full body
+			for _, body := range [][]byte{nil, {0x41, 0, 0, 0}, randBytes(c, 38)} {
+				for _, l := range []int{0, 1, 2, 3, 4 + len(body), 0xffff} {
+					node := append([]byte{byte(ty), byte(sub), byte(l), byte(l >> 8)}, body...)
+					emit("devicepath", fmt.Sprintf("node-%d-%d/length", ty, sub), "devicepath", node)
+					emit("devicepath", fmt.Sprintf("node-%d-%d/length+end", ty, sub), "devicepath", append(node, 0x7f, 0xff, 4, 0))
+				}
 			}
 		}
 	}
@@ -439,8 +645,8 @@ func c14Gen(c *Ctx) {
 
 func init() {
 	register("C14", &PropDef{
-		Rule:   "17 decoder entry points (ReadSignatureDatabase/List/Data, ReadEFIVariableAuthencation2, ReadWinCertificate(UEFIGUID), EFILoadOption.Unmarshal + Format, ParseDevicePath + Format, ParseUtf16Var, Efistring, boot order, GetSupportedSignatures, ParseEfivars, StringToGUID, BytesToGUID, ReadKey, ReadCert) run in a sandboxed worker process (address-space limit, per-input timeout, runtime.MemStats.TotalAlloc delta). Inputs: every size field of lists / descriptors / certificates swept over {0,1,7,8,15,16,17,23,24,27,28,29,2^16,2^24,2^31,2^32-1,...}, consistent headers promising one 2 GiB signature or 2^12..2^26 signatures of the list's own size, every truncation point, captured and generated load options cut everywhere / without end node / byte-mutated, every device-path (type, subtype) with 0..38 bytes of data, every partition-format byte, UTF-16 edge cases, random short inputs, PEM material cut and mutated, files with several PEM blocks (key+certificate in both orders, unknown block types, headers, text around the blocks, empty blocks). Non-trivial: non-empty input; distinct = distinct (entry point, input). Static part: the call-graph certificate (see the Lean obligations).",
-		Assume: []string{"allocation budget 64 bytes per input byte + 2 MiB; time limit 3 s per input", "wall-clock time and resident memory are runtime facts measured on the sampled inputs only"},
+		Rule:   "17 decoder entry points (ReadSignatureDatabase/List/Data, ReadEFIVariableAuthencation2, ReadWinCertificate(UEFIGUID), EFILoadOption.Unmarshal + Format, ParseDevicePath + Format, ParseUtf16Var, Efistring, boot order, GetSupportedSignatures, ParseEfivars, StringToGUID, BytesToGUID, ReadKey, ReadCert) run in a sandboxed worker process (address-space limit, per-input timeout, runtime.MemStats.TotalAlloc delta). Inputs: every size field of lists / descriptors / certificates swept over {0,1,7,8,15,16,17,23,24,27,28,29,2^16,2^24,2^31,2^32-1,...}, consistent headers promising one 2 GiB signature or 2^12..2^26 signatures of the list's own size, every truncation point, captured and generated load options cut everywhere / without end node / byte-mutated, every device-path (type, subtype) with 0..38 bytes of data and with a declared node Length of 0..3 (below the 4-byte node header) / exact / 0xffff, every node Length of the captured and generated load options set to 0..3, +-1 and 0xffff, every partition-format byte, size scaling (one signature list of 4096 and of 20000 SHA-256 entries [thorough: 16384 / 80000], 1000 / 5000 certificate-sized entries in one list, each also split into lists of 64 / 16 entries of the same total size; a boot order of 30000 entries, 20000 GUIDs, a device path of 20000 nodes, a string of 200000 characters: time <= 0.5 s + 1 µs/byte, memory budget, and one-list time <= 8 x split time + 0.1 s, best of 3 runs), UTF-16 edge cases, random short inputs, PEM material cut and mutated, files with several PEM blocks (key+certificate in both orders, unknown block types, headers, text around the blocks, empty blocks). Non-trivial: non-empty input; distinct = distinct (entry point, input). Static part: the call-graph certificate (see the Lean obligations).",
+		Assume: []string{"allocation budget 64 bytes per input byte + 2 MiB; time limit 3 s per input; for the large regular inputs 0.5 s + 1 µs per byte and at most 8 x the time of the same entries split into short lists + 0.1 s", "wall-clock time and resident memory are runtime facts measured on the sampled inputs only"},
 		Eval:   c14Eval, Gen: c14Gen,
 	})
 }
